@@ -158,7 +158,7 @@ Definition exec_spec (ex : (ref -> nat) -> heap -> heap) (mrad : R -> R -> R)
     (forall c, c <> loc Rout -> ex loc h c = h c).
 
 Ltac exec_tac :=
-  intros loc h; cbv zeta;
+  intros loc h; cbv beta zeta;
   unfold set_radius, set_pos, set_width, upd; cbn [d_radius d_pos d_width];
   rewrite ?Nat.eqb_refl; cbn [d_radius d_pos d_width];
   destruct (Nat.eqb (loc Rdrop1) (loc Rout)) eqn:E1;
